@@ -1,11 +1,31 @@
 package index
 
 import (
+	"fmt"
 	"log"
 	"os"
+	"path/filepath"
+	"strings"
 
 	"github.com/spq/pkappa2/internal/tools"
 )
+
+// mergedFilename returns an unused filename for the result of merging indexes.
+// The index files are stacked by name when they are loaded at startup, so the
+// name has to sort where the merged files were: directly behind the newest
+// merged file and in front of every file that was created after it.
+func mergedFilename(indexDir string, indexes []*Reader) string {
+	if len(indexes) == 0 {
+		return tools.MakeFilename(indexDir, "idx")
+	}
+	base := strings.TrimSuffix(filepath.Base(indexes[len(indexes)-1].filename), ".idx")
+	for i := 1; ; i++ {
+		fn := filepath.Join(indexDir, fmt.Sprintf("%s.m%d.idx", base, i))
+		if _, err := os.Stat(fn); err != nil {
+			return fn
+		}
+	}
+}
 
 func Merge(indexDir string, indexes []*Reader) ([]*Reader, error) {
 	ws := []*Writer{}
@@ -16,7 +36,7 @@ func Merge(indexDir string, indexes []*Reader) ([]*Reader, error) {
 			idx := indexes[idxIdx]
 			for wIdx := 0; wIdx <= len(ws); wIdx++ {
 				if wIdx == len(ws) {
-					w, err := NewWriter(tools.MakeFilename(indexDir, "idx"))
+					w, err := NewWriter(mergedFilename(indexDir, indexes))
 					if err != nil {
 						return err
 					}
